@@ -125,7 +125,29 @@ def _build_string_matcher(I, a, k):
     return m
 
 
+def _digit_char(I, a, k):
+    """the one-character string of a digit value 0..9"""
+    v = I.resolve(a[0])
+    if isinstance(v, int):
+        return str(v)
+    I.p.assume(z3.And(v.t >= 0, v.t <= 9))
+    t = lib.istr(I, v.t)
+    return Sym(STR, t, parts=[Digits(v.t, 1, t, single=True)])
+
+
+def _hex_char(I, a, k):
+    """the one-character lower-case hexadecimal digit of a value 0..15"""
+    v = I.resolve(a[0])
+    if isinstance(v, int):
+        return '0123456789abcdef'[v]
+    I.p.assume(z3.And(v.t >= 0, v.t <= 15))
+    t = z3.SubString(z3.StringVal('0123456789abcdef'), v.t, 1)
+    return Sym(STR, t, parts=[Digits(v.t, 1, t, single=True, alphabet='0123456789abcdef')])
+
+
 NATIVE = {
+    'hex_char': _hex_char,
+    'digit_char': _digit_char,
     'build_string_matcher': _build_string_matcher,
     'build_trie': _build_trie,
     'env_matches': _env_matches,
@@ -223,6 +245,15 @@ def str_fun(I, name, s, args):
             I.p.ghost[key] = t     # pins the term (z3 reuses ids)
             I.p.assume(z3.And(z3.Contains(t, r), z3.Length(r) <= z3.Length(t), _STRIP(r) == r,
                               z3.Implies(z3.InRe(t, _NO_EDGE_SPACE_ASCII), r == t)))
+        return Sym(STR, r)
+    if name in ('lstrip', 'rstrip', 'strip') and len(args) <= 1 and (not args or isinstance(args[0], str)):
+        f = z3.Function(f'py_{name}_chars', z3.StringSort(), z3.StringSort(), z3.StringSort())
+        r = f(t, z3.StringVal(args[0] if args else ' '))
+        key = (name, r.get_id())
+        if key not in I.p.ghost:
+            I.p.ghost[key] = r
+            rel = z3.SuffixOf(r, t) if name == 'lstrip' else (z3.PrefixOf(r, t) if name == 'rstrip' else z3.Contains(t, r))
+            I.p.assume(z3.And(rel, z3.Length(r) <= z3.Length(t)))
         return Sym(STR, r)
     raise Unsupported(f'str.{name} on symbolic string')
 
